@@ -90,6 +90,7 @@ fn send_fenced(clients: &[Client], ci: usize, bytes: &[u8], dst: SocketAddr, fen
             if !any { std::thread::sleep(Duration::from_millis(1)); }
         }
     }
+    crate::net::note_timeout();
     None
 }
 
@@ -105,185 +106,202 @@ pub fn run(out: &mut impl Write, seed: u64, cases: usize, _replay: &str, uring_r
     let dir = std::path::Path::new(env!("CARGO_MANIFEST_DIR")).join("target").join("tmp").join(format!("aqv-udpnet-{}", std::process::id()));
     std::fs::create_dir_all(&dir).unwrap();
     for case in 0..cases {
-        let mut r = master.fork(case as u64);
-        // C18 boundary scenario: the largest announce reply the configuration allows, one peer beyond
-        // what the back end's send buffer holds (IPv6 entries are 18 bytes)
-        // (`--boundaries-first 1`: the four boundary scenarios - both back ends, at and over the limit - come first)
-        let bf = boundaries_first && case < 4;
-        let boundary = bf || case % 6 == 5;
-        let backend = if bf { if case % 2 == 0 { "uring" } else { "mio" } } else if boundary { if (case / 6) % 2 == 0 { "uring" } else { "mio" } } else if case % 2 == 0 { "mio" } else { "uring" };
-        let backend = if mio_only { "mio" } else { backend };
-        let send_buf: usize = if backend == "uring" { uring_resp_buf } else { aquatic_udp::common::BUFFER_SIZE };
-        let max_scrape: u8 = r.pick(&[3u8, 70, 70]);
-        // alternately exactly at the limit (must be accepted and delivered whole) and one beyond (must be refused)
-        let over = if bf { case >= 2 } else { (case / 12) % 2 == 1 };
-        let max_peers: usize = if boundary { (send_buf - 20) / 18 + if over { 1 } else { 0 } } else { r.pick(&[2usize, 30]) };
-        let stale_case = case % 5 == 4;
-        let age: u32 = if stale_case { 1 } else { 120 };
-        let mode = r.pick(&["off", "off", "allow", "deny"]);
-        let listed: Vec<[u8; 20]> = vec![hash_of(1), hash_of(2)];
-        let acl_path = dir.join(format!("acl-{}.txt", case));
-        std::fs::write(&acl_path, listed.iter().map(|h| hex(h)).collect::<Vec<_>>().join("\n")).unwrap();
-        let args = vec![
-            format!("use_io_uring={}", backend == "uring"), format!("max_scrape_torrents={}", max_scrape),
-            format!("max_response_peers={}", max_peers), format!("max_connection_age={}", age),
-            format!("acl_mode={}", mode), format!("acl_path={}", acl_path.display()),
-        ];
-        let Some(mut server) = Server::start("udp", &args) else {
-            writeln!(out, "cfg udpnet {} {} {} {} {} -\nnet START-FAILED", backend, max_scrape, max_peers, age, mode).unwrap();
-            continue;
-        };
-        let mk = |ip: &str| -> Option<Client> {
-            let ipa: IpAddr = ip.parse().ok()?;
-            let sock = UdpSocket::bind(SocketAddr::new(ipa, 0)).ok()?;
-            sock.set_nonblocking(true).ok()?;
-            Some(Client { sock, ip: ipa, cid: None })
-        };
-        let mut clients: Vec<Client> = ["127.0.0.1", "127.0.0.1", "127.0.0.2", "::1"].iter().filter_map(|ip| mk(ip)).collect();
-        let dst4: SocketAddr = format!("127.0.0.1:{}", server.port).parse().unwrap();
-        let dst6: SocketAddr = format!("[::1]:{}", server.port).parse().unwrap();
-        // wait for the tracker, however loaded the machine is: either run() returns (the configuration was
-        // refused, or start-up failed) or a connect request is answered
-        let mut up = false;
-        let mut refused: Option<String> = None;
-        let t0 = std::time::Instant::now();
-        while t0.elapsed() < Duration::from_secs(45) {
-            if let Some(l) = server.exit_line(Duration::from_millis(0)) { refused = Some(l); break; }
-            let mut b = Vec::new();
-            Request::Connect(ConnectRequest { transaction_id: TransactionId::new(1) }).write_bytes(&mut b).unwrap();
-            let _ = clients[0].sock.send_to(&b, dst4);
-            if !drain(&clients, Duration::from_millis(40)).is_empty() { up = true; break; }
+        // a case in which some answer never came is run again (up to three times in all) from the same random
+        // state: what the tracker does deterministically shows every time, a stall of the machine does not
+        let r0 = master.fork(case as u64);
+        let mut attempt = 0;
+        loop {
+            let timeouts_before = crate::net::timeouts();
+            let mut case_buf: Vec<u8> = Vec::new();
+            {
+                let out = &mut case_buf;
+                let mut r = r0.clone();
+                'case: {
+                        // C18 boundary scenario: the largest announce reply the configuration allows, one peer beyond
+                        // what the back end's send buffer holds (IPv6 entries are 18 bytes)
+                        // (`--boundaries-first 1`: the four boundary scenarios - both back ends, at and over the limit - come first)
+                        let bf = boundaries_first && case < 4;
+                        let boundary = bf || case % 6 == 5;
+                        let backend = if bf { if case % 2 == 0 { "uring" } else { "mio" } } else if boundary { if (case / 6) % 2 == 0 { "uring" } else { "mio" } } else if case % 2 == 0 { "mio" } else { "uring" };
+                        let backend = if mio_only { "mio" } else { backend };
+                        let send_buf: usize = if backend == "uring" { uring_resp_buf } else { aquatic_udp::common::BUFFER_SIZE };
+                        let max_scrape: u8 = r.pick(&[3u8, 70, 70]);
+                        // alternately exactly at the limit (must be accepted and delivered whole) and one beyond (must be refused)
+                        let over = if bf { case >= 2 } else { (case / 12) % 2 == 1 };
+                        let max_peers: usize = if boundary { (send_buf - 20) / 18 + if over { 1 } else { 0 } } else { r.pick(&[2usize, 30]) };
+                        let stale_case = case % 5 == 4;
+                        let age: u32 = if stale_case { 1 } else { 120 };
+                        let mode = r.pick(&["off", "off", "allow", "deny"]);
+                        let listed: Vec<[u8; 20]> = vec![hash_of(1), hash_of(2)];
+                        let acl_path = dir.join(format!("acl-{}.txt", case));
+                        std::fs::write(&acl_path, listed.iter().map(|h| hex(h)).collect::<Vec<_>>().join("\n")).unwrap();
+                        let args = vec![
+                            format!("use_io_uring={}", backend == "uring"), format!("max_scrape_torrents={}", max_scrape),
+                            format!("max_response_peers={}", max_peers), format!("max_connection_age={}", age),
+                            format!("acl_mode={}", mode), format!("acl_path={}", acl_path.display()),
+                        ];
+                        let Some(mut server) = Server::start("udp", &args) else {
+                    crate::net::note_timeout();
+                            writeln!(out, "cfg udpnet {} {} {} {} {} -\nnet START-FAILED", backend, max_scrape, max_peers, age, mode).unwrap();
+                            break 'case;
+                        };
+                        let mk = |ip: &str| -> Option<Client> {
+                            let ipa: IpAddr = ip.parse().ok()?;
+                            let sock = UdpSocket::bind(SocketAddr::new(ipa, 0)).ok()?;
+                            sock.set_nonblocking(true).ok()?;
+                            Some(Client { sock, ip: ipa, cid: None })
+                        };
+                        let mut clients: Vec<Client> = ["127.0.0.1", "127.0.0.1", "127.0.0.2", "::1"].iter().filter_map(|ip| mk(ip)).collect();
+                        let dst4: SocketAddr = format!("127.0.0.1:{}", server.port).parse().unwrap();
+                        let dst6: SocketAddr = format!("[::1]:{}", server.port).parse().unwrap();
+                        // wait for the tracker, however loaded the machine is: either run() returns (the configuration was
+                        // refused, or start-up failed) or a connect request is answered
+                        let mut up = false;
+                        let mut refused: Option<String> = None;
+                        let t0 = std::time::Instant::now();
+                        while t0.elapsed() < Duration::from_secs(45) {
+                            if let Some(l) = server.exit_line(Duration::from_millis(0)) { refused = Some(l); break; }
+                            let mut b = Vec::new();
+                            Request::Connect(ConnectRequest { transaction_id: TransactionId::new(1) }).write_bytes(&mut b).unwrap();
+                            let _ = clients[0].sock.send_to(&b, dst4);
+                            if !drain(&clients, Duration::from_millis(40)).is_empty() { up = true; break; }
+                        }
+                        if let Some(l) = refused {
+                            writeln!(out, "cfg udpnet {} {} {} {} {} -", backend, max_scrape, max_peers, age, mode).unwrap();
+                            writeln!(out, "refused {} {} {} => {}", backend, max_scrape, max_peers, l.replace(' ', "_")).unwrap();
+                            break 'case;
+                        }
+                        writeln!(out, "cfg udpnet {} {} {} {} {} {}", backend, max_scrape, max_peers, age, mode,
+                            if mode == "off" { "-".to_string() } else { listed.iter().map(|h| hex(h)).collect::<Vec<_>>().join(",") }).unwrap();
+                        if !up { crate::net::note_timeout(); writeln!(out, "net START-FAILED no-answer-to-connect").unwrap(); server.stop(); break 'case; }
+                        let mut fence_no: i32 = 0;
+                        let _ = drain(&clients, Duration::from_millis(60));
+                        if boundary {
+                            // fill one IPv6 swarm with max_peers + 1 peers (distinct announced ports), then ask for all
+                            let ci = clients.iter().position(|c| c.ip.is_ipv6()).unwrap_or(0);
+                            let dst = if clients[ci].ip.is_ipv4() { dst4 } else { dst6 };
+                            let mut b = Vec::new();
+                            Request::Connect(ConnectRequest { transaction_id: TransactionId::new(5) }).write_bytes(&mut b).unwrap();
+                            let _ = clients[ci].sock.send_to(&b, dst);
+                            for (i, rb) in drain(&clients, Duration::from_millis(60)) {
+                                if i == ci { if let Ok(Response::Connect(c)) = Response::parse_bytes(&rb, true) { clients[ci].cid = Some((c.connection_id, Instant::now())); } }
+                            }
+                            let cid = clients[ci].cid.map(|x| x.0).unwrap_or(ConnectionId::new(0));
+                            let mk_ann = |port: u16, want: i32| -> Vec<u8> {
+                                let mut bytes = Vec::new();
+                                Request::Announce(AnnounceRequest {
+                                    connection_id: cid, action_placeholder: Default::default(), transaction_id: TransactionId::new(9),
+                                    info_hash: InfoHash(hash_of(1)), peer_id: PeerId([b'p'; 20]), bytes_downloaded: NumberOfBytes::new(0),
+                                    bytes_left: NumberOfBytes::new(1), bytes_uploaded: NumberOfBytes::new(0), event: AnnounceEvent::None,
+                                    ip_address: Ipv4AddrBytes([0; 4]), key: PeerKey::new(0), peers_wanted: NumberOfPeers::new(want),
+                                    port: Port::new(NonZeroU16::new(port).unwrap()),
+                                }).write_bytes(&mut bytes).unwrap();
+                                bytes
+                            };
+                            // every filler announce is confirmed (fenced; repeated if its reply did not come): the swarm really holds max_peers peers
+                            let mut filled = true;
+                            for p in 0..(max_peers as u16) {
+                                let mut ok = false;
+                                for _ in 0..3 {
+                                    if let Some(g) = send_fenced(&clients, ci, &mk_ann(10000 + p, 1), dst, &mut fence_no) { if !g.is_empty() { ok = true; break; } }
+                                }
+                                if !ok { filled = false; break; }
+                            }
+                            if !filled { server.stop(); break 'case; }   // no observation possible on this machine right now
+                            let bytes = mk_ann(9999, i32::MAX);
+                            let Some(got) = send_fenced(&clients, ci, &bytes, dst, &mut fence_no) else { server.stop(); break 'case; };
+                            let replies = if got.is_empty() { "-".to_string() } else { got.iter().map(|(i, b)| format!("{}:{}", i, hex(b))).collect::<Vec<_>>().join(";") };
+                            writeln!(out, "big {} {} {} => {}", ci, ip_hex(clients[ci].ip), max_peers, replies).unwrap();
+                            server.stop();
+                            break 'case;
+                        }
+                        let nops = 25 + r.below(25) as usize;
+                        for opi in 0..nops {
+                            let ci = r.below(clients.len() as u64) as usize;
+                            let dst = if clients[ci].ip.is_ipv4() { dst4 } else { dst6 };
+                            // connection-id class
+                            let fresh = |c: &Client| c.cid.map(|(_, t)| t.elapsed() < Duration::from_millis(if age == 1 { 700 } else { 60_000 })).unwrap_or(false);
+                            let kind = r.below(100);
+                            let mut idclass = "none";
+                            let tid = TransactionId::new(r.pick(&[0i32, 1, -1, 0x01020304, i32::MIN]));
+                            let mut cid = ConnectionId::new(0);
+                            if kind >= 15 {
+                                let c = r.below(100);
+                                if c < 60 && fresh(&clients[ci]) { idclass = "own"; cid = clients[ci].cid.unwrap().0; }
+                                else if c < 70 && clients[ci].cid.is_some() && age == 1 && backend == "mio" {
+                                    // let it go stale: more than a whole second must pass, and the socket worker must
+                                    // refresh its clock sample (mio: every 256 poll iterations) after that
+                                    std::thread::sleep(Duration::from_millis(2300));
+                                    // one connect round trip at a time: the worker is back in poll() before the next datagram is sent,
+                                    // so each is an iteration of its own however slowly the machine runs (datagrams sent blindly
+                                    // pile up while the worker is descheduled and are then read in a single iteration)
+                                    for _ in 0..600 {
+                                        let none: Vec<u8> = Vec::new();
+                                        if send_fenced(&clients, ci, &none, dst, &mut fence_no).is_none() { break; }
+                                    }
+                                    let _ = drain(&clients, Duration::from_millis(40));
+                                    idclass = "stale"; cid = clients[ci].cid.unwrap().0;
+                                }
+                                else if c < 85 {
+                                    if let Some(o) = clients.iter().find(|o| o.ip != clients[ci].ip && fresh(o)) { idclass = "foreign"; cid = o.cid.unwrap().0; } else { idclass = "forged"; cid = ConnectionId::new(r.next() as i64); }
+                                }
+                                else { idclass = "forged"; cid = ConnectionId::new(r.next() as i64); }
+                            }
+                            let mut bytes = Vec::new();
+                            if kind < 15 || (opi < 4 && clients[ci].cid.is_none()) {
+                                idclass = "none";
+                                Request::Connect(ConnectRequest { transaction_id: tid }).write_bytes(&mut bytes).unwrap();
+                                if r.chance(15) { for _ in 0..r.below(20) { bytes.push(r.next() as u8); } }
+                            } else if kind < 50 {
+                                Request::Announce(AnnounceRequest {
+                                    connection_id: cid, action_placeholder: Default::default(), transaction_id: tid,
+                                    info_hash: InfoHash(hash_of(1 + r.below(4) as u8)), peer_id: PeerId([b'p'; 20]),
+                                    bytes_downloaded: NumberOfBytes::new(0), bytes_left: NumberOfBytes::new(r.pick(&[0i64, 1])), bytes_uploaded: NumberOfBytes::new(0),
+                                    event: r.pick(&[AnnounceEvent::None, AnnounceEvent::Started, AnnounceEvent::Stopped]),
+                                    ip_address: Ipv4AddrBytes([8, 8, 8, 8]), key: PeerKey::new(0), peers_wanted: NumberOfPeers::new(r.pick(&[-1i32, 0, 1, 50])),
+                                    port: Port::new(NonZeroU16::new(r.pick(&[6881u16, 6882, 1])).unwrap()),
+                                }).write_bytes(&mut bytes).unwrap();
+                                if r.chance(20) { for _ in 0..1 + r.below(30) { bytes.push(r.next() as u8); } }           // BEP 41 extension
+                                if r.chance(8) { bytes[96] = 0; bytes[97] = 0; }                                            // port 0
+                                if r.chance(6) { bytes[83] = 9; }                                                           // bad event
+                            } else if kind < 80 {
+                                let n = r.pick(&[1usize, 2, 3, 4, 22, 23, 24, 25, 69, 70, 71, 74]);
+                                Request::Scrape(ScrapeRequest { connection_id: cid, transaction_id: tid, info_hashes: (0..n).map(|i| InfoHash(hash_of(1 + (i % 5) as u8))).collect() }).write_bytes(&mut bytes).unwrap();
+                                if r.chance(10) { bytes.truncate(bytes.len() - 1 - r.below(19) as usize); }                 // not a multiple of 20
+                                if r.chance(5) { bytes.truncate(16); }                                                      // empty list
+                            } else {
+                                // malformed: truncated / unknown action / random
+                                Request::Announce(AnnounceRequest {
+                                    connection_id: cid, action_placeholder: Default::default(), transaction_id: tid, info_hash: InfoHash(hash_of(1)), peer_id: PeerId([b'p'; 20]),
+                                    bytes_downloaded: NumberOfBytes::new(0), bytes_left: NumberOfBytes::new(0), bytes_uploaded: NumberOfBytes::new(0), event: AnnounceEvent::None,
+                                    ip_address: Ipv4AddrBytes([0; 4]), key: PeerKey::new(0), peers_wanted: NumberOfPeers::new(0), port: Port::new(NonZeroU16::new(1).unwrap()),
+                                }).write_bytes(&mut bytes).unwrap();
+                                match r.below(4) {
+                                    0 => { let n = r.below(98) as usize; bytes.truncate(n); }
+                                    1 => { bytes[11] = r.pick(&[3u8, 4, 255]); }
+                                    2 => { let n = r.below(120) as usize; bytes = (0..n).map(|_| r.next() as u8).collect(); idclass = "forged"; }
+                                    _ => { let i = r.below(bytes.len() as u64) as usize; bytes[i] ^= 1 << r.below(8); if i < 8 { idclass = "forged"; } }
+                                }
+                            }
+                            if bytes.is_empty() { bytes.push(0); }
+                            let Some(got) = send_fenced(&clients, ci, &bytes, dst, &mut fence_no) else { continue; };
+                            // learn the connection id from a connect reply to this client
+                            for (i, b) in &got {
+                                if *i == ci {
+                                    if let Ok(Response::Connect(c)) = Response::parse_bytes(b, true) { clients[ci].cid = Some((c.connection_id, Instant::now())); }
+                                }
+                            }
+                            let replies = if got.is_empty() { "-".to_string() } else { got.iter().map(|(i, b)| format!("{}:{}", i, hex(b))).collect::<Vec<_>>().join(";") };
+                            writeln!(out, "dg {} {} {} {} => {}", ci, ip_hex(clients[ci].ip), idclass, hex(&bytes), replies).unwrap();
+                        }
+                        if let Some(l) = server.exit_line(Duration::from_millis(0)) { writeln!(out, "net TRACKER-EXITED {}", l.replace(' ', "_")).unwrap(); }
+                        server.stop();
+                }
+            }
+            if crate::net::timeouts() == timeouts_before || attempt >= 2 { out.write_all(&case_buf).unwrap(); break; }
+            crate::net::set_timeouts(timeouts_before);
+            attempt += 1;
         }
-        if let Some(l) = refused {
-            writeln!(out, "cfg udpnet {} {} {} {} {} -", backend, max_scrape, max_peers, age, mode).unwrap();
-            writeln!(out, "refused {} {} {} => {}", backend, max_scrape, max_peers, l.replace(' ', "_")).unwrap();
-            continue;
-        }
-        writeln!(out, "cfg udpnet {} {} {} {} {} {}", backend, max_scrape, max_peers, age, mode,
-            if mode == "off" { "-".to_string() } else { listed.iter().map(|h| hex(h)).collect::<Vec<_>>().join(",") }).unwrap();
-        if !up { writeln!(out, "net START-FAILED no-answer-to-connect").unwrap(); server.stop(); continue; }
-        let mut fence_no: i32 = 0;
-        let _ = drain(&clients, Duration::from_millis(60));
-        if boundary {
-            // fill one IPv6 swarm with max_peers + 1 peers (distinct announced ports), then ask for all
-            let ci = clients.iter().position(|c| c.ip.is_ipv6()).unwrap_or(0);
-            let dst = if clients[ci].ip.is_ipv4() { dst4 } else { dst6 };
-            let mut b = Vec::new();
-            Request::Connect(ConnectRequest { transaction_id: TransactionId::new(5) }).write_bytes(&mut b).unwrap();
-            let _ = clients[ci].sock.send_to(&b, dst);
-            for (i, rb) in drain(&clients, Duration::from_millis(60)) {
-                if i == ci { if let Ok(Response::Connect(c)) = Response::parse_bytes(&rb, true) { clients[ci].cid = Some((c.connection_id, Instant::now())); } }
-            }
-            let cid = clients[ci].cid.map(|x| x.0).unwrap_or(ConnectionId::new(0));
-            let mk_ann = |port: u16, want: i32| -> Vec<u8> {
-                let mut bytes = Vec::new();
-                Request::Announce(AnnounceRequest {
-                    connection_id: cid, action_placeholder: Default::default(), transaction_id: TransactionId::new(9),
-                    info_hash: InfoHash(hash_of(1)), peer_id: PeerId([b'p'; 20]), bytes_downloaded: NumberOfBytes::new(0),
-                    bytes_left: NumberOfBytes::new(1), bytes_uploaded: NumberOfBytes::new(0), event: AnnounceEvent::None,
-                    ip_address: Ipv4AddrBytes([0; 4]), key: PeerKey::new(0), peers_wanted: NumberOfPeers::new(want),
-                    port: Port::new(NonZeroU16::new(port).unwrap()),
-                }).write_bytes(&mut bytes).unwrap();
-                bytes
-            };
-            // every filler announce is confirmed (fenced; repeated if its reply did not come): the swarm really holds max_peers peers
-            let mut filled = true;
-            for p in 0..(max_peers as u16) {
-                let mut ok = false;
-                for _ in 0..3 {
-                    if let Some(g) = send_fenced(&clients, ci, &mk_ann(10000 + p, 1), dst, &mut fence_no) { if !g.is_empty() { ok = true; break; } }
-                }
-                if !ok { filled = false; break; }
-            }
-            if !filled { server.stop(); continue; }   // no observation possible on this machine right now
-            let bytes = mk_ann(9999, i32::MAX);
-            let Some(got) = send_fenced(&clients, ci, &bytes, dst, &mut fence_no) else { server.stop(); continue; };
-            let replies = if got.is_empty() { "-".to_string() } else { got.iter().map(|(i, b)| format!("{}:{}", i, hex(b))).collect::<Vec<_>>().join(";") };
-            writeln!(out, "big {} {} {} => {}", ci, ip_hex(clients[ci].ip), max_peers, replies).unwrap();
-            server.stop();
-            continue;
-        }
-        let nops = 25 + r.below(25) as usize;
-        for opi in 0..nops {
-            let ci = r.below(clients.len() as u64) as usize;
-            let dst = if clients[ci].ip.is_ipv4() { dst4 } else { dst6 };
-            // connection-id class
-            let fresh = |c: &Client| c.cid.map(|(_, t)| t.elapsed() < Duration::from_millis(if age == 1 { 700 } else { 60_000 })).unwrap_or(false);
-            let kind = r.below(100);
-            let mut idclass = "none";
-            let tid = TransactionId::new(r.pick(&[0i32, 1, -1, 0x01020304, i32::MIN]));
-            let mut cid = ConnectionId::new(0);
-            if kind >= 15 {
-                let c = r.below(100);
-                if c < 60 && fresh(&clients[ci]) { idclass = "own"; cid = clients[ci].cid.unwrap().0; }
-                else if c < 70 && clients[ci].cid.is_some() && age == 1 && backend == "mio" {
-                    // let it go stale: more than a whole second must pass, and the socket worker must
-                    // refresh its clock sample (mio: every 256 poll iterations) after that
-                    std::thread::sleep(Duration::from_millis(2300));
-                    // one connect round trip at a time: the worker is back in poll() before the next datagram is sent,
-                    // so each is an iteration of its own however slowly the machine runs (datagrams sent blindly
-                    // pile up while the worker is descheduled and are then read in a single iteration)
-                    for _ in 0..600 {
-                        let none: Vec<u8> = Vec::new();
-                        if send_fenced(&clients, ci, &none, dst, &mut fence_no).is_none() { break; }
-                    }
-                    let _ = drain(&clients, Duration::from_millis(40));
-                    idclass = "stale"; cid = clients[ci].cid.unwrap().0;
-                }
-                else if c < 85 {
-                    if let Some(o) = clients.iter().find(|o| o.ip != clients[ci].ip && fresh(o)) { idclass = "foreign"; cid = o.cid.unwrap().0; } else { idclass = "forged"; cid = ConnectionId::new(r.next() as i64); }
-                }
-                else { idclass = "forged"; cid = ConnectionId::new(r.next() as i64); }
-            }
-            let mut bytes = Vec::new();
-            if kind < 15 || (opi < 4 && clients[ci].cid.is_none()) {
-                idclass = "none";
-                Request::Connect(ConnectRequest { transaction_id: tid }).write_bytes(&mut bytes).unwrap();
-                if r.chance(15) { for _ in 0..r.below(20) { bytes.push(r.next() as u8); } }
-            } else if kind < 50 {
-                Request::Announce(AnnounceRequest {
-                    connection_id: cid, action_placeholder: Default::default(), transaction_id: tid,
-                    info_hash: InfoHash(hash_of(1 + r.below(4) as u8)), peer_id: PeerId([b'p'; 20]),
-                    bytes_downloaded: NumberOfBytes::new(0), bytes_left: NumberOfBytes::new(r.pick(&[0i64, 1])), bytes_uploaded: NumberOfBytes::new(0),
-                    event: r.pick(&[AnnounceEvent::None, AnnounceEvent::Started, AnnounceEvent::Stopped]),
-                    ip_address: Ipv4AddrBytes([8, 8, 8, 8]), key: PeerKey::new(0), peers_wanted: NumberOfPeers::new(r.pick(&[-1i32, 0, 1, 50])),
-                    port: Port::new(NonZeroU16::new(r.pick(&[6881u16, 6882, 1])).unwrap()),
-                }).write_bytes(&mut bytes).unwrap();
-                if r.chance(20) { for _ in 0..1 + r.below(30) { bytes.push(r.next() as u8); } }           // BEP 41 extension
-                if r.chance(8) { bytes[96] = 0; bytes[97] = 0; }                                            // port 0
-                if r.chance(6) { bytes[83] = 9; }                                                           // bad event
-            } else if kind < 80 {
-                let n = r.pick(&[1usize, 2, 3, 4, 22, 23, 24, 25, 69, 70, 71, 74]);
-                Request::Scrape(ScrapeRequest { connection_id: cid, transaction_id: tid, info_hashes: (0..n).map(|i| InfoHash(hash_of(1 + (i % 5) as u8))).collect() }).write_bytes(&mut bytes).unwrap();
-                if r.chance(10) { bytes.truncate(bytes.len() - 1 - r.below(19) as usize); }                 // not a multiple of 20
-                if r.chance(5) { bytes.truncate(16); }                                                      // empty list
-            } else {
-                // malformed: truncated / unknown action / random
-                Request::Announce(AnnounceRequest {
-                    connection_id: cid, action_placeholder: Default::default(), transaction_id: tid, info_hash: InfoHash(hash_of(1)), peer_id: PeerId([b'p'; 20]),
-                    bytes_downloaded: NumberOfBytes::new(0), bytes_left: NumberOfBytes::new(0), bytes_uploaded: NumberOfBytes::new(0), event: AnnounceEvent::None,
-                    ip_address: Ipv4AddrBytes([0; 4]), key: PeerKey::new(0), peers_wanted: NumberOfPeers::new(0), port: Port::new(NonZeroU16::new(1).unwrap()),
-                }).write_bytes(&mut bytes).unwrap();
-                match r.below(4) {
-                    0 => { let n = r.below(98) as usize; bytes.truncate(n); }
-                    1 => { bytes[11] = r.pick(&[3u8, 4, 255]); }
-                    2 => { let n = r.below(120) as usize; bytes = (0..n).map(|_| r.next() as u8).collect(); idclass = "forged"; }
-                    _ => { let i = r.below(bytes.len() as u64) as usize; bytes[i] ^= 1 << r.below(8); if i < 8 { idclass = "forged"; } }
-                }
-            }
-            if bytes.is_empty() { bytes.push(0); }
-            let Some(got) = send_fenced(&clients, ci, &bytes, dst, &mut fence_no) else { continue; };
-            // learn the connection id from a connect reply to this client
-            for (i, b) in &got {
-                if *i == ci {
-                    if let Ok(Response::Connect(c)) = Response::parse_bytes(b, true) { clients[ci].cid = Some((c.connection_id, Instant::now())); }
-                }
-            }
-            let replies = if got.is_empty() { "-".to_string() } else { got.iter().map(|(i, b)| format!("{}:{}", i, hex(b))).collect::<Vec<_>>().join(";") };
-            writeln!(out, "dg {} {} {} {} => {}", ci, ip_hex(clients[ci].ip), idclass, hex(&bytes), replies).unwrap();
-        }
-        if let Some(l) = server.exit_line(Duration::from_millis(0)) { writeln!(out, "net TRACKER-EXITED {}", l.replace(' ', "_")).unwrap(); }
-        server.stop();
     }
     let _ = std::fs::remove_dir_all(&dir);
 }
